@@ -142,7 +142,10 @@ Definition mon_bucket (b4q ei : bool) (fee sp target liq rem : Z) (obs : option 
       (if (0 <=? fee) && (fee <? P) && (0 <=? amt_in) && (reached || negb ei)
        then fee * (amt_in + fc) <=? fc * P else true) &&
       (let quote_amt := if b4q then amt_out else amt_in in
-       if b4q && ei && (0 <=? liq) then 2 * Z.abs (quote_amt * P - Z.abs (next - sp) * liq) <=? P else true)
+       if b4q && ei && (0 <=? liq) then 2 * Z.abs (quote_amt * P - Z.abs (next - sp) * liq) <=? P else true) &&
+      (* the price never moves against the trade, and a step that does not move it pays nothing out *)
+      (if b4q then next <=? sp else sp <=? next) &&
+      (if next =? sp then amt_out =? 0 else true)
   end.
 
 Definition c05_check (c : c05_case) : list Z :=
